@@ -99,6 +99,24 @@ Theorem C14_skolem_iso :
 Proof. intros. rewrite (skolem_roundtrip join parse safe); auto. apply iso_refl. Qed.
 Print Assumptions C14_skolem_iso.
 
+(* Non-default basepath under /.well-known/genid/ (any authority): de_skolemize
+   takes the external branch; the round trip is the input with every blank node
+   in subject/object position renamed through [ext_label], which is injective
+   when urljoin is - hence an isomorphic graph for RDF graphs (no blank predicate). *)
+Theorem C14_skolem_roundtrip_external :
+  forall (join : str -> str) (parse : str -> urlinfo) (safe : str -> bool),
+  (forall i, safe i = true ->
+     is_rdflib_skolem parse (join i) = false /\ is_external_skolem parse (join i) = true) ->
+  (forall g, sk_wf parse safe g ->
+     deskolemize_g parse (skolemize_g join g) = map (relabel_t join) g)
+  /\ ((forall i j, join i = join j -> i = j) -> forall i j, ext_label join i = ext_label join j -> i = j).
+Proof.
+  intros join parse safe H. split.
+  - intros g Hw. now apply (skolem_roundtrip_external join parse safe).
+  - apply ext_label_inj.
+Qed.
+Print Assumptions C14_skolem_roundtrip_external.
+
 (* The tie: what the correspondence check evaluates on the implementation's
    answers is satisfied by the model on every case outside finding FC14a. *)
 Theorem C14_spec_ok_model : forall c, kf c = 0%N -> spec_ok c (model_obs c) = true.
@@ -131,7 +149,8 @@ Theorem C14_spec_diff_reading : forall c o,
 Proof. exact spec_diff_reading. Qed.
 Print Assumptions C14_spec_diff_reading.
 
-Theorem C14_spec_skolem_reading : forall c o, spec_skolem c o = true <-> iso (o_sk o) (c_g1 c).
+Theorem C14_spec_skolem_reading : forall c o,
+  spec_skolem c o = true <-> iso (o_sk o) (c_g1 c) /\ iso (o_skv o) (c_g1 c).
 Proof. exact spec_skolem_reading. Qed.
 Print Assumptions C14_spec_skolem_reading.
 
